@@ -1,8 +1,79 @@
 import Solvor.Common.Proto
 import Solvor.Pack.Model
-/-! Pack: line-protocol handler. One request line in, one reply line out. -/
-namespace Solvor.Pack
+/-! Pack: line-protocol handler.
 
-def handle (line : String) : String := "unimplemented " ++ line
+`["knap", wR, vR, capR, wBits, vBits, capBits, minimize, implSel|null, implObj|null]`
+  wR/vR/capR  : weights, values, capacity as exact rationals `[num, den]` (the decimals the
+                generator wrote; spec side);  wBits/vBits/capBits : the doubles handed to Python
+  reply `[status|"ValueError", sel, fallback, lossless, intCap,      -- Float mirror of solve_knapsack
+          best|null,                                                  -- knapBest of (±values) on the rationals
+          [chkSel, chkKnapsack, selWeight, selValue] | null,              -- verified checkers on the implementation's answer
+          [dpSel, dpValue] | null]`                                   -- proved DP (ratOps) when weights/capacity are integers
+
+`["pack", sR, capR, sBits, capBits, useBest, decreasing, implAsg|null, implK|null, wantOpt]`
+  reply `[[statusF|"ValueError", asgF, kF],                           -- Float mirror of solve_bin_pack
+          [statusR|"ValueError", asgR, kR, chkR],                     -- Rat mirror (theorem subject) + checker on it
+          chkImpl|null, minBins|null, ceil(sum/cap)]`
+-/
+namespace Solvor.Pack
+open Solvor.Proto
+
+def fOfBits (b : Nat) : Float := Float.ofBits b.toUInt64
+
+def isNatRat (q : Rat) : Bool := q.den == 1 && decide (0 ≤ q.num)
+
+def handleKnap (wR vR : List Rat) (capR : Rat) (wB vB : List Nat) (capB : Nat) (minimize : Bool)
+    (implSel : Option (List Nat)) (implObj : Option Rat) : Val :=
+  let mir := knapMirror (vB.map fOfBits) (wB.map fOfBits) (fOfBits capB) minimize
+  let sign : Rat := if minimize then -1 else 1
+  let items := wR.zip vR
+  let sitems := wR.zip (vR.map (sign * ·))
+  let best := if wR.length = vR.length then knapBest sitems capR else none
+  let chk : Val := match implSel, implObj with
+    | some s, some ob => Val.arr [Val.bool (chkSel items capR s), Val.bool (chkKnapsack items capR s ob), Val.ofRat (selW items s), Val.ofRat (selV items s)]
+    | _, _ => Val.null
+  let dp : Val :=
+    if wR.length = vR.length && wR.all isNatRat && isNatRat capR && decide (capR.num.toNat ≤ 200000) then
+      let r := knapInt ratOps ((wR.map (·.num.toNat)).zip (vR.map (sign * ·))) capR.num.toNat
+      Val.arr [Val.ofNats r.1, Val.ofRat r.2]
+    else Val.null
+  let head : List Val := match mir with
+    | .error e => [Val.str e, Val.arr [], Val.bool false, Val.bool false, Val.int 0]
+    | .ok r => [Val.str r.status.name, Val.ofNats r.sel, Val.bool r.fallback, Val.bool r.lossless, Val.int r.intCap]
+  Val.arr (head ++ [Val.ofOpt Val.ofRat best, chk, dp])
+
+def packVal : Except String PackRes → List Val
+  | .error e => [Val.str e, Val.arr [], Val.int 0]
+  | .ok r => [Val.str r.status.name, Val.ofNats r.asg, Val.int r.k]
+
+def handlePack (sR : List Rat) (capR : Rat) (sB : List Nat) (capB : Nat) (useBest decreasing : Bool)
+    (implAsg : Option (List Nat)) (implK : Option Nat) (wantOpt : Bool) : Val :=
+  let mf := pack floatOps (sB.map fOfBits) (fOfBits capB) useBest decreasing
+  let mr := pack ratOps sR capR useBest decreasing
+  let chkR : Bool := match mr with
+    | .ok r => chkPack sR capR r.asg r.k
+    | .error _ => false
+  let chkI : Val := match implAsg, implK with
+    | some a, some k => Val.bool (chkPack sR capR a k)
+    | _, _ => Val.null
+  let opt : Val := if wantOpt && decide (0 < capR) then Val.int (minBins sR capR) else Val.null
+  let lb : Int := if 0 < capR then (sR.sum / capR).ceil else 0
+  Val.arr [Val.arr (packVal mf), Val.arr (packVal mr ++ [Val.bool chkR]), chkI, opt, Val.int lb]
+
+def handle (line : String) : String :=
+  match request line with
+  | some ("knap", [wR, vR, capR, wB, vB, capB, mn, isel, iobj]) =>
+    match wR.toRats?, vR.toRats?, capR.toRat?, wB.toNats?, vB.toNats?, capB.toNat?, mn.toBool?,
+          isel.toOpt? Val.toNats?, iobj.toOpt? Val.toRat? with
+    | some wR, some vR, some capR, some wB, some vB, some capB, some mn, some isel, some iobj =>
+      (handleKnap wR vR capR wB vB capB mn isel iobj).render
+    | _, _, _, _, _, _, _, _, _ => err "bad arguments"
+  | some ("pack", [sR, capR, sB, capB, ub, dec, iasg, ik, wo]) =>
+    match sR.toRats?, capR.toRat?, sB.toNats?, capB.toNat?, ub.toBool?, dec.toBool?,
+          iasg.toOpt? Val.toNats?, ik.toOpt? Val.toNat?, wo.toBool? with
+    | some sR, some capR, some sB, some capB, some ub, some dec, some iasg, some ik, some wo =>
+      (handlePack sR capR sB capB ub dec iasg ik wo).render
+    | _, _, _, _, _, _, _, _, _ => err "bad arguments"
+  | _ => err "bad request"
 
 end Solvor.Pack
